@@ -103,7 +103,7 @@ def detect(prop, n, checks):
         if rc == 0:
             for c in checks:
                 rcc, oc = sh("./check %s" % c, cwd="/verif", timeout=3000)
-                lines = [l for l in oc.split("\n") if l.startswith("VIOLATION") or l.startswith("OK") or l.startswith("KNOWN")]
+                lines = [l for l in oc.split("\n") if l.startswith("VIOLATION") or l.startswith("OK")]
                 detail = [l for l in oc.split("\n") if l.startswith("  ")][:3]
                 res["checks"][c] = {"rc": rcc, "lines": lines[:4], "detail": detail}
     finally:
@@ -133,7 +133,9 @@ def keep(prop, n):
                 meta["confirmed_by_me"]["how"] = "tools/seedtest.py confirm in a scratch git worktree of /repo: baseline suite with the patch, demonstration with and without the patch"
             else:
                 meta["checks_run"] = {c: {"exit": v["rc"], "lines": v["lines"], "detail": v["detail"]} for c, v in r.get("checks", {}).items()}
-                meta["detected_by"] = [c for c, v in r.get("checks", {}).items() if v["rc"] == 1 and any(l.startswith("VIOLATION") for l in v["lines"])]
+                meta["detected_by"] = [c for c, v in r.get("checks", {}).items()
+                                       if v["rc"] == 1 and (any(l.startswith("VIOLATION") for l in v["lines"]) or any("violates" in x or "broken" in x for x in v["detail"]))]
+                meta["concrete_input"] = [c for c, v in r.get("checks", {}).items() if v["rc"] == 1 and any("implementation violates" in x or "kernel " in x for x in v["detail"])]
     json.dump(meta, open(os.path.join(dst, "meta.json"), "w"), indent=1)
     return meta
 
